@@ -4,6 +4,7 @@ import RainModel.Model.Geometry
 import RainModel.Lemmas.Geometry
 import RainModel.Lemmas.SectionIO
 import RainModel.Lemmas.Jobs
+import RainModel.Lemmas.CreateVerify
 /-!
 C02 — piece/file geometry.  Property theorems only; helper lemmas live in `Lemmas/`.
 -/
@@ -133,6 +134,26 @@ theorem read_write_roundtrip (st : Store) (p : List Geometry.Sec) (buf : List Na
   refine ⟨by rw [hr, hc], ?_⟩
   rw [hr]; simp [readOK]
 
+/-- **pieces_roundtrip.** `read_write_roundtrip` applies to every piece of every accepted
+metainfo: for `WF` inputs and a store as the allocator leaves it (`storeMatches`), all pieces of
+`NewPieces` fit the store, the byte positions of all sections of all pieces are pairwise distinct
+(no two pieces — and no two sections of one piece — share a byte on disk; this is the
+disjointness C01 uses), and hence every piece can be written and any sub-range read back. -/
+theorem pieces_roundtrip (files : List FileEnt) (pl n L : Nat) (h : WF files pl n L) (st : Store)
+    (hst : storeMatches files st = true) :
+    ∃ ps steps, newPieces files pl n L = .ok (ps, steps) ∧ (secStream (allSecs ps)).Nodup ∧
+      ∀ p ∈ ps, fits st p.secs = true ∧ (dataStream p.secs).Nodup ∧ p.len = secsLen p.secs := by
+  obtain ⟨ps, steps, hrun, ht, hmeta, _⟩ := newPieces_spec files pl n L h
+  obtain ⟨hnd, hnds⟩ := nodup_of_tiles ht
+  refine ⟨ps, steps, hrun, hnd, fun p hp => ⟨?_, hnds p hp, ?_⟩⟩
+  · apply fits_of_storeMatches hst
+    intro s hs
+    apply hmeta s
+    simp only [allSecs, List.mem_flatMap]
+    exact ⟨p, hp, hs⟩
+  · simp only [TilesFiles, Bool.and_eq_true, beq_iff_eq, List.all_eq_true] at ht
+    simpa [secsLen] using ht.1.1.1.2 p hp
+
 /-- Reading needs no preceding write: any in-range `ReadAt` on a fitting piece returns the
 piece's content (padding as zeros); this is the statement C03 (upload) and the verifier rely on. -/
 theorem readAt_in_range (st : Store) (p : List Geometry.Sec) (off n : Nat) (hfit : fits st p = true) (hn : 0 < n)
@@ -202,5 +223,99 @@ example :
   refine ⟨by decide, _, _, rfl, by decide, by decide⟩
 
 end Jobs
+
+/-! ### creation (`metainfo.NewInfoBytes`) against the verifier -/
+section CreateVerify
+open Rain.Geometry
+
+/-- **create_verify, full statement** (what C02 asks, FALSE of the code — finding F02): for every
+hash function `H`, every list of files `(entry, content)` with `entry.len = |content|` — whatever
+padding flags parsing assigns — whose metainfo is well-formed, the piece table computed by the
+creation loop over the contents in order makes the verifier, run on the pieces of `NewPieces`
+over the storage of that same directory, set every bit. -/
+def create_verify_full : Prop :=
+  ∀ (H : List Nat → Nat) (pl n : Nat) (fs : List (FileEnt × List Nat)),
+    (∀ x ∈ fs, x.1.len = x.2.length) → WF (fs.map (·.1)) pl n (totalLen (fs.map (·.1))) →
+    ∃ ps st, newPieces (fs.map (·.1)) pl n (totalLen (fs.map (·.1))) = .ok (ps, st) ∧
+      verifyBits H (storeOf fs) ps (createHashes H pl (fs.map (·.2))) = some (List.replicate n true)
+
+/-- **create_verify_partial.** The full statement under the one extra hypothesis that excludes
+F02: no file of the tree is marked as a padding file when the created metainfo is parsed (i.e. no
+name starts with `_____padding_file`).  For every `H` (SHA-1 abstract): the creation loop hashes
+exactly the contents of the pieces `NewPieces` builds, in order, so the verifier's bitfield over
+the same files is all ones. -/
+theorem create_verify_partial (H : List Nat → Nat) (pl n : Nat) (fs : List (FileEnt × List Nat))
+    (hlen : ∀ x ∈ fs, x.1.len = x.2.length) (hnopad : ∀ x ∈ fs, x.1.pad = false)
+    (hwf : WF (fs.map (·.1)) pl n (totalLen (fs.map (·.1)))) :
+    ∃ ps st, newPieces (fs.map (·.1)) pl n (totalLen (fs.map (·.1))) = .ok (ps, st) ∧
+      verifyBits H (storeOf fs) ps (createHashes H pl (fs.map (·.2))) = some (List.replicate n true) := by
+  obtain ⟨ps, st, hrun, ht, hmeta, _⟩ := newPieces_spec _ pl n _ hwf
+  refine ⟨ps, st, hrun, ?_⟩
+  simp only [TilesFiles, Bool.and_eq_true, beq_iff_eq, List.all_eq_true] at ht
+  obtain ⟨⟨⟨⟨⟨hn, hstream⟩, hall⟩, hlens⟩, _⟩, _⟩ := ht
+  have hboth : ∀ x ∈ fs, x.1.len = x.2.length ∧ x.1.pad = false := fun x hx => ⟨hlen x hx, hnopad x hx⟩
+  obtain ⟨hfit, hpads⟩ := fits_storeOf fs hboth (allSecs ps) hmeta
+  have hpl : ∀ p ∈ ps, p.len = secsLen p.secs := fun p hp => by simpa [secsLen] using hall p hp
+  -- contents of the pieces, concatenated, are the contents of the files, concatenated
+  have hcat : (fs.map (·.2)).flatten = (ps.map fun p => pieceContent (storeOf fs) p.secs).flatten := by
+    rw [← pieceContent_allSecs, pieceContent_eq_look _ _ hfit hpads, hstream]
+    have := fileStream_look fs [] hboth
+    simpa using this.symm
+  rw [createHashes_eq H hwf.pl_pos _ _ hcat (validChunks_of_lensOK _ ps hlens hpl), List.map_map, ← hn]
+  apply verifyBits_all
+  intro p hp
+  refine ⟨?_, hpl p hp, pos_of_lensOK hwf.pl_pos ps hlens p hp⟩
+  unfold fits at hfit ⊢
+  rw [List.all_eq_true] at hfit ⊢
+  intro s hs
+  apply hfit s
+  simp only [allSecs, List.mem_flatMap]
+  exact ⟨p, hp, hs⟩
+
+/-- **create_verify_counterexample** (F02 on the model).  One 2-byte file that parsing marks as
+padding (`_____padding_file…`) with non-zero content: creation hashes `[1, 2]`, the verifier reads
+zeros from the `PaddingFile`, and for `H = sum` the bit is not set. -/
+theorem create_verify_counterexample : ¬ create_verify_full := by
+  intro h
+  obtain ⟨ps, st, hrun, hv⟩ := h (fun bs => bs.sum) 2 1 [(⟨2, true, 1⟩, [1, 2])] (by decide) (by decide)
+  have hnp : newPieces ([(⟨2, true, 1⟩, [1, 2])].map (·.1)) 2 1 (totalLen ([(⟨2, true, 1⟩, [1, 2])].map (·.1))) =
+      .ok ([⟨2, [⟨0, 0, 2, true, 1⟩]⟩], 1) := by decide
+  rw [hnp] at hrun
+  cases hrun
+  revert hv
+  decide
+
+/-- Non-vacuity of `create_verify_partial`: three files, one empty, piece length 4, 9 bytes. -/
+example : let fs : List (FileEnt × List Nat) := [(⟨3, false, 1⟩, [1, 2, 3]), (⟨0, false, 2⟩, []), (⟨6, false, 3⟩, [4, 5, 6, 7, 8, 9])]
+    (∀ x ∈ fs, x.1.len = x.2.length) ∧ (∀ x ∈ fs, x.1.pad = false) ∧ WF (fs.map (·.1)) 4 3 (totalLen (fs.map (·.1))) ∧
+    createHashes (fun bs => bs.sum) 4 (fs.map (·.2)) = [10, 26, 9] := by decide
+
+end CreateVerify
+
+/-! ### the two halves together: blocks of the pieces of an accepted metainfo -/
+section PieceBlocks
+open Rain.Geometry
+
+/-- What `calculateBlocks` reads of a section. -/
+def toBlockSec (s : Geometry.Sec) : Blocks.Sec := { len := s.len, pad := s.pad }
+
+/-- **pieces_blocks_tile.** For every accepted metainfo, every piece built by `NewPieces` has at
+least one section (so `calculateBlocks` does not panic on `p.Data[0]`), and its 16 KiB blocks
+tile exactly its non-padding bytes, none longer than 16 KiB. -/
+theorem pieces_blocks_tile (files : List FileEnt) (pl n L : Nat) (h : WF files pl n L) :
+    ∃ ps steps, newPieces files pl n L = .ok (ps, steps) ∧
+      ∀ p ∈ ps, ∃ bl, calcBlocks 16384 (p.secs.map toBlockSec) = some bl ∧
+        Tiles 16384 (p.secs.map toBlockSec) bl = true := by
+  obtain ⟨ps, steps, hrun, ht⟩ := newPieces_tiles files pl n L h
+  refine ⟨ps, steps, hrun, fun p hp => ?_⟩
+  apply calcBlocks_tiles 16384 (by decide)
+  intro hnil
+  have hsecs : p.secs = [] := by simpa using hnil
+  simp only [TilesFiles, Bool.and_eq_true, beq_iff_eq, List.all_eq_true] at ht
+  have hlen : p.len = 0 := by simpa [hsecs] using ht.1.1.1.2 p hp
+  have := pos_of_lensOK h.pl_pos ps ht.1.1.2 p hp
+  omega
+
+end PieceBlocks
 
 end Rain.Props.C02
